@@ -1,4 +1,46 @@
-import Pulsar.Proofs.Encode
+/-
+  Pulsar.Proofs.Roundtrip — C01: assembly of the round-trip development.
+
+  * RtWire   : protowire readers on protowire writers (varint, tag, fixed, zig-zag); `consumeValue` fuel
+  * RtScalar : scalar read-back per kind; packed runs
+  * RtStep   : one record of the reference decoder loop per field shape; the `Steps` relation
+  * RtField  : records, map entries, runs of records
+  * RtSlot   : `field_rt` — one field, all shapes
+  * RtMsg    : `fields_rt` (known fields in legacy order), `unknown_rt` (unknown records)
+  * RtTree   : `level_rt`, `tree_rt`
+  and here: the statements at `specUnmarshalStrict` / `implUnmarshal`, for any map-entry order.
+-/
+import Pulsar.Proofs.RtTree
+import Pulsar.Proofs.EncodeTop
 import Pulsar.Proofs.DecodeRef
 namespace Pulsar
+
+/-- The reference decoder (strict) reads the order-generalised reference encoding back as an
+    equivalent value, provided the encoding is shorter than 2^64 bytes (every length prefix must be
+    a valid varint). -/
+theorem spec_roundtrip_g {S : Schema} (hS : S.WF = true) {ord : Kind → List Val → List Val}
+    (hord : ∀ kk es, (ord kk es).Perm es) (fuel i : Nat) (v : Val) (hi : i < S.msgs.length)
+    (hv : msgOK S false fuel i v = true) (hu : utf8OK S fuel i v = true) (hk : unknownOK S fuel i v = true)
+    (hd : fuel ≤ 10000) (hlen : (gEncode S ord fuel i v).length < 18446744073709551616) :
+    ∃ w, specUnmarshalStrict S {} i (emptyMsg S i) (gEncode S ord fuel i v) = .ok w ∧ Equiv S fuel i w v := by
+  obtain ⟨w, hw, hrep, _⟩ := tree_rt hS hord fuel i v ((gEncode S ord fuel i v).length + 1) 10000 hi hv hu hk
+    hlen (Nat.le_refl _) hd
+  refine ⟨w, ?_, hrep⟩
+  simpa [specUnmarshalStrict] using hw
+
+/-- the same through the generated code: Marshal (any options) then Unmarshal into a fresh message. -/
+theorem impl_roundtrip {S : Schema} (hS : S.WF = true) (fuel i : Nat) (v : Val) (o : MOpts)
+    (hperm : ∀ es, (o.perm es).Perm es) (hi : i < S.msgs.length)
+    (hv : msgOK S false fuel i v = true) (hu : utf8OK S fuel i v = true) (hk : unknownOK S fuel i v = true)
+    (hd : fuel ≤ 10000) :
+    ∃ bs w, implMarshal S o fuel i v = .ok bs ∧
+      (bs.length < 9223372036854775808 →
+        implUnmarshal S {} i (emptyMsg S i) bs = .ok w ∧ Equiv S fuel i w v) := by
+  have hord := ordOf_perm o hperm
+  obtain ⟨hm, _, _, _⟩ := marshal_ok hS o hord fuel i v hi hv
+  by_cases hl : (gEncode S (ordOf o) fuel i v).length < 9223372036854775808
+  · obtain ⟨w, hw, he⟩ := spec_roundtrip_g hS hord fuel i v hi hv hu hk hd (by omega)
+    exact ⟨_, w, hm, fun _ => ⟨unmarshal_agree S {} i _ _ w hl (fun _ => rfl) (Or.inl rfl) hw, he⟩⟩
+  · exact ⟨_, v, hm, fun h => absurd h hl⟩
+
 end Pulsar
